@@ -77,8 +77,10 @@ func runHistory(r *core.Run, cid string, L int) {
 			l.send()
 		case x < 70:
 			l.recv()
-		case x < 92:
+		case x < 88:
 			l.ack()
+		case x < 93:
+			l.duplicate()
 		case x < 96:
 			a, b := s.RandNodePair()
 			_, _, _ = s.UpdateClient(a, b, s.RandRelayer(), 0)
@@ -305,6 +307,69 @@ func (l *ledger) ackPkt(p *pkt.Pkt) {
 		}
 	}
 	l.check("ack "+p.Key(), o)
+}
+
+// duplicate re-delivers a message that was already accepted - the genuine acknowledgement of an acknowledged packet
+// or the genuine receive of a received packet, with a fresh proof ("two relayers racing", "a late retry"). Whether
+// the chain accepts it is C01's / C05's subject; here the books are judged: the sender must not be refunded again,
+// the receiver must not be credited again, and the ledger must still balance.
+func (l *ledger) duplicate() {
+	s := l.s
+	rel := s.RandRelayer()
+	if acked := s.AckedPkts(); len(acked) > 0 && s.Rng.Intn(3) != 0 {
+		p := acked[s.Rng.Intn(len(acked))]
+		ph, err := s.EnsureClient(p.SrcN, p.DstN, rel, s.ProvableHeight(p.DstN, p.RecvBlock))
+		if err != nil {
+			return
+		}
+		msg, err := s.AckMsg(p, p.AckWritten, ph, rel)
+		if err != nil {
+			return
+		}
+		var before *big.Int
+		if p.Spec.Token != nil {
+			before = l.balance(p.SrcN, p.Spec.Token.AddrOn(p.SrcN), p.Spec.User.Eth)
+		}
+		o := s.Deliver(p.SrcN, rel, "duplicate ack "+p.Key(), msg)
+		l.r.Count(fmt.Sprintf("duplicate_acks/code-%d/accepted=%v", p.AckCode, o.OK()), 1)
+		if before != nil {
+			if d := new(big.Int).Sub(l.balance(p.SrcN, p.Spec.Token.AddrOn(p.SrcN), p.Spec.User.Eth), before); d.Sign() != 0 {
+				l.r.Violation(l.cid, fmt.Sprintf("ack/duplicate-acknowledgement-moved-the-senders-tokens/code-%d", p.AckCode), map[string]interface{}{"packet": p.Key(), "sender_delta": d, "accepted": o.OK(), "log": s.Log})
+			}
+		}
+		l.check("duplicate-ack "+p.Key(), o)
+		return
+	}
+	recvd := s.ReceivedPkts()
+	if len(recvd) == 0 {
+		return
+	}
+	p := recvd[s.Rng.Intn(len(recvd))]
+	if p.SrcN == nil || p.DstN == nil {
+		return
+	}
+	ph, err := s.EnsureClient(p.DstN, p.SrcN, rel, s.ProvableHeight(p.SrcN, p.SendBlock))
+	if err != nil {
+		return
+	}
+	msg, err := s.RecvMsg(p, ph, rel)
+	if err != nil {
+		return
+	}
+	var before *big.Int
+	var recvAddr common.Address
+	if p.Spec.Token != nil && common.IsHexAddress(p.Spec.Receiver) {
+		recvAddr = common.HexToAddress(p.Spec.Receiver)
+		before = l.balance(p.DstN, p.Spec.Token.AddrOn(p.DstN), recvAddr)
+	}
+	o := s.Deliver(p.DstN, rel, "duplicate recv "+p.Key(), msg)
+	l.r.Count(fmt.Sprintf("duplicate_recvs/accepted=%v", o.OK()), 1)
+	if before != nil {
+		if d := new(big.Int).Sub(l.balance(p.DstN, p.Spec.Token.AddrOn(p.DstN), recvAddr), before); d.Sign() != 0 {
+			l.r.Violation(l.cid, "recv/duplicate-receive-credited-the-receiver-again", map[string]interface{}{"packet": p.Key(), "receiver_delta": d, "accepted": o.OK(), "log": s.Log})
+		}
+	}
+	l.check("duplicate-recv "+p.Key(), o)
 }
 
 // factor is 10^scale of token t on chain x: one origin unit is 10^scale wrapped units.
